@@ -266,7 +266,7 @@ def classify(h: c05_gen.HSpec) -> Tuple[bool, List[str]]:
 
 
 def shard(ctx: runner.Ctx) -> None:
-    n = ctx.n(5_000, 250_000)
+    n = ctx.n(4_000, 200_000)
     ho = c05_gen.HOpts() if ctx.quick else c05_gen.HOpts(max_classes=14, max_cps=8)
 
     def one(h: c05_gen.HSpec) -> None:
